@@ -30,11 +30,11 @@ def main():
             os.makedirs(os.path.join(wt, '_seed'), exist_ok=True)
             shutil.copy(os.path.join(seed_dir, demo), os.path.join(wt, '_seed', demo))
             cmd = ['/venv/bin/python', os.path.join('_seed', demo)]
-            p = subprocess.run(cmd, cwd=wt, capture_output=True, text=True)
+            p = subprocess.run(cmd, cwd=wt, capture_output=True, text=True, env=dict(os.environ, PYTHONPATH=wt))
             res['demo_with_change'] = p.returncode
             print('demo with change: exit', p.returncode, (p.stdout + p.stderr)[-300:].replace('\n', ' | '))
             subprocess.run(['git', '-C', wt, 'apply', '-R', os.path.join(seed_dir, 'patch.diff')], check=True)
-            p = subprocess.run(cmd, cwd=wt, capture_output=True, text=True)
+            p = subprocess.run(cmd, cwd=wt, capture_output=True, text=True, env=dict(os.environ, PYTHONPATH=wt))
             res['demo_without_change'] = p.returncode
             print('demo without change: exit', p.returncode, (p.stdout + p.stderr)[-200:].replace('\n', ' | '))
             subprocess.run(['git', '-C', wt, 'apply', os.path.join(seed_dir, 'patch.diff')], check=True)
